@@ -12,6 +12,7 @@ import Arca.Driver.EngineApi
 import Arca.Driver.Input
 import Arca.Driver.Gate
 import Arca.Driver.Dgraph
+import Arca.Driver.Infer
 
 open Lean (Json)
 open Arca.Driver
@@ -59,4 +60,5 @@ def main (args : List String) : IO UInt32 := do
   | "input" :: rest => cmdInput rest; return 0
   | "gate" :: rest => cmdGate rest; return 0
   | "dgraph" :: rest => cmdDgraph rest; return 0
+  | "infer" :: rest => cmdInfer rest; return 0
   | _ => IO.eprintln "usage: arcadrv loop [errCap]"; return 2
